@@ -932,6 +932,7 @@ func (lcp *LCPStateMachine) stopTimer() {
 
 // timeout handles restart timer expiration
 func (lcp *LCPStateMachine) timeout() {
+	verifGate("lcp.timeout", lcp)
 	lcp.mu.Lock()
 	defer lcp.mu.Unlock()
 
